@@ -232,6 +232,12 @@ def modifyAccountVotes (w : TxView) (voteTo : Option Key) (d : Int) (isNewVote :
   | none => some w
   | some k => (addVotes w.st.cands k d isNewVote).map fun cs => { w with st := { w.st with cands := cs } }
 
+/-- big.Int.Int64 (math/big): the low 64 bits of |x| as a two's-complement int64, negated if x < 0 -/
+def int64Wrap (x : Int) : Int :=
+  let m : Int := (x.natAbs % 18446744073709551616 : Nat)
+  let v := if m ≥ 9223372036854775808 then m - 18446744073709551616 else m
+  if x < 0 then (if v == -9223372036854775808 then v else -v) else v
+
 def belowRequired (bal : Int) : Option Int → Bool
   | some r => decide (bal < r)
   | none => false
@@ -325,9 +331,10 @@ def execOp (w : TxView) (tx : Tx) : TxView × Res :=
         let cs := if c.votes == 0 then alErase w.st.cands k else alPut w.st.cands k { c with registered := false }
         ({ w with st := { w.st with cands := cs } }, .haltTrue)
   | .setFeePerByte v =>
-    if v < 0 || v > 100000000 then (w, .fault)
+    -- `toBigInt(args[0]).Int64()` (policy.go:638): no range check before the conversion, the low 64 bits are taken
+    if int64Wrap v < 0 || int64Wrap v > 100000000 then (w, .fault)
     else if !checkCommittee w tx then (w, .fault)
-    else ({ w with st := { w.st with feePerByte := v }, pol := { w.pol with feePerByte := v } }, .halt)
+    else ({ w with st := { w.st with feePerByte := int64Wrap v }, pol := { w.pol with feePerByte := int64Wrap v } }, .halt)
   | .setExecFeeFactor v =>
     if v ≤ 0 || v > 1000000 then (w, .fault)
     else if !checkCommittee w tx then (w, .fault)
